@@ -92,7 +92,9 @@ Inductive iop :=
   | ICopy
   | ISubset (ks : list name)
   | IRename (o n : name)
-  | ISlice (d : dimk) (a k st : nat)          (* indices a, a+st, ..., k of them (k >= 1, st >= 1) *)
+  | ISlice (sels : list (dimk * bool * list nat))
+      (* one sliceDimensions call: per selected dimension, whether the selector is an index LIST (as opposed to an int or a
+         slice, possibly with a negative step) and the selected positions in selection order (resolved, 0-based) *)
   | IApply (d : dimk) (g : rfun)
   | IEval (n a : name) (copyall : bool)       (* n = a * 2, n a fresh name *)
   | IMask
@@ -120,11 +122,8 @@ Definition set_time (f : io) (sd st ts : Z) : io :=
   IO (nt f) (nl f) (nr f) (nc f) (vardim f) (ts_unl f) (dvars f) (tflag f) (nvars f) (varlist f) (a_nl f) (a_nr f) (a_nc f) (nvgl f)
      sd st ts.
 
-Fixpoint pick {A} (l : list A) (a k st : nat) : list A :=
-  match k with
-  | O => []
-  | S k' => match nth_error l a with Some x => x :: pick l (a + st) k' st | None => [] end
-  end.
+Definition picks {A} (l : list A) (idx : list nat) : list A :=
+  flat_map (fun i => match nth_error l i with Some x => [x] | None => [] end) idx.
 Fixpoint evens {A} (l : list A) : list A :=
   match l with [] => [] | [x] => [x] | x :: _ :: t => x :: evens t end.
 
@@ -175,30 +174,46 @@ Definition impl_rename (f : io) (o n : name) : res io :=
       updatemeta (set_meta f3 (nvars f3) vl (vardim f3) (tflag f3) (sdate f3) (stime f3))
   end.
 
-(* ioapi_base.sliceDimensions for one dimension *)
-Definition impl_slice (f : io) (d : dimk) (a k st : nat) : res io :=
-  match dim_len f d with
+(* ioapi_base.sliceDimensions: the effect of one selector; SDATE/STIME become the FIRST selected time step (times[0]),
+   TSTEP the difference of the first two selected steps (it may be negative or zero) *)
+Definition dimk_eqb (a b : dimk) : bool :=
+  match a, b with DT, DT | DL, DL | DR, DR | DC, DC => true | _, _ => false end.
+Definition sel_one (g : io) (s : dimk * bool * list nat) : res io :=
+  let d := fst (fst s) in let idx := snd s in
+  match dim_len g d with
   | None => Raise
   | Some n =>
-      if Nat.eqb k 0 || Nat.eqb st 0 || negb (Nat.ltb (a + (k - 1) * st) n) then Raise else
-      match tflag f with
-      | None => Raise
-      | Some (s1, rows) =>
-          let f1 := set_len f d k in
-          do f2 <- (match d with
-                    | DT => let rows' := pick rows a k st in
-                            match rows' with
-                            | [] => Raise
-                            | r0 :: rest =>
-                                let ts := match rest with r1 :: _ => snd r1 - snd r0 | [] => tstep f end in
-                                if negb (Nat.eqb (length rows) n) then Raise else
-                                Ok (set_time (set_rows f1 rows') (fst r0) (snd r0) ts)
-                            end
-                    | DL => if Nat.eqb (nvgl f) (n + 1) then Ok (set_vgl f1 (k + 1)) else Raise   (* other cases not modelled *)
-                    | _ => Ok f1
-                    end);
-          updatemeta f2
+      if Nat.eqb (length idx) 0 || negb (forallb (fun i => Nat.ltb i n) idx) then Raise else   (* IndexError / empty: not modelled *)
+      let k := length idx in
+      let g1 := set_len g d k in
+      match d with
+      | DT => match tflag g with
+              | Some (s1, rows) =>
+                  if negb (Nat.eqb (length rows) n) then Raise else
+                  match picks rows idx with
+                  | [] => Raise
+                  | r0 :: rest =>
+                      let ts := match rest with r1 :: _ => snd r1 - snd r0 | [] => tstep g end in
+                      Ok (set_time (set_rows g1 (r0 :: rest)) (fst r0) (snd r0) ts)
+                  end
+              | None => Raise
+              end
+      | DL => if Nat.eqb (nvgl g) (n + 1) then Ok (set_vgl g1 (k + 1)) else Raise   (* other cases not modelled *)
+      | _ => Ok g1
       end
+  end.
+Fixpoint sel_all (g : io) (sels : list (dimk * bool * list nat)) : res io :=
+  match sels with [] => Ok g | s :: t => do g' <- sel_one g s; sel_all g' t end.
+Fixpoint dims_distinct (ds : list dimk) : bool :=
+  match ds with [] => true | d :: t => negb (existsb (dimk_eqb d) t) && dims_distinct t end.
+Definition impl_slice (f : io) (sels : list (dimk * bool * list nat)) : res io :=
+  (* keyword arguments name each dimension once; two index lists take the POINTS path (variables lose the standard
+     dimensions): not modelled here, C01 drives it *)
+  if negb (dims_distinct (map (fun s => fst (fst s)) sels))
+     || Nat.ltb 1 (length (filter (fun s => snd (fst s)) sels)) then Raise else
+  match tflag f with
+  | None => Raise
+  | Some _ => do f2 <- sel_all f sels; updatemeta f2
   end.
 
 (* ioapi_base.applyAlongDimensions for one dimension *)
@@ -265,7 +280,7 @@ Definition istep (f : io) (o : iop) : res io :=
   | ICopy => impl_copy f
   | ISubset ks => impl_subset f ks
   | IRename o n => impl_rename f o n
-  | ISlice d a k st => impl_slice f d a k st
+  | ISlice sels => impl_slice f sels
   | IApply d g => impl_apply f d g
   | IEval n a ca => impl_eval f n a ca
   | IMask => impl_mask f
@@ -290,7 +305,7 @@ Definition iop_region (f : io) (o : iop) : nat :=
   end.
 (* operations for which preservation of coherence is PROVED (the others: correspondence only) *)
 Definition proved_op (o : iop) : bool :=
-  match o with ICopy | ISubset _ | IRename _ _ | ISlice _ _ _ _ | IApply _ _ | IStack _ _ => true | _ => false end.
+  match o with ICopy | ISubset _ | IRename _ _ | ISlice _ | IApply _ _ | IStack _ _ => true | _ => false end.
 Fixpoint irun_region (f : io) (ops : list iop) : nat :=
   match ops with
   | [] => 0%nat
